@@ -22,14 +22,16 @@ PARSE_RULE = ("streams: all words of <= 3 (quick) / 4 (thorough) tokens over {da
 
 PROPS["C01"] = {
     "families": ["parse_c01"],
-    "level_text": "Proof (partial at the top) + correspondence. Proved for all streams/states/stops/endings: line_step (scan_segment + the switch of read() = Whatwg.process_line), "
-                  "read_loop_spec (the read loop over the fields of a stream's lines = Whatwg.interp, incl. end rules and early stop), the line-by-line form of the specification "
-                  "(interp_lines_eq), the characterisation of splitFunc's tokens (split_func_tok/_shape), segmentation independence at the split level (split_path_toks + spec_toks: "
-                  "every way of consulting splitFunc on prefixes gives the same interpretation), and scan_spec (bufio.Scanner.Scan for every reader script cuts such tokens). "
-                  "Partial: tokens_interp composes these without the scanner for streams without leading BOM; the end-to-end equations C01_read / C01_connection on the model stack are "
-                  "NOT proved (missing lemma parser_fields: Parser.Next over the scanner's tokens hands out fields_of of a tokenisation, incl. the BOM wrapper; and fitsb -> no ErrTooLong); "
-                  "split_stable in its sharp form is not proved (made unnecessary by spec_toks). The gap is covered by the correspondence (model = code on every case) and by the oracle "
-                  "holds_parse_c01 (code = Whatwg.interp of the concatenated stream for every segmentation whenever every group fits the limit).",
+    "level_text": "Proof (end to end on the model stack) + correspondence. Proved for all configurations, reader scripts (every segmentation of the byte stream into reads, byte-at-a-time included), "
+                  "endings, initial IDs and stop positions: C01_read / C01_connection / C01_read_any_id (read_run_spec) - whenever every group fits the limit (fitsb), the model of sse.Read / Connection.read "
+                  "(Scanner + splitFunc + FieldParser + Parser + read loop) yields exactly firstn' stop (vis (Whatwg.interp mode id (concat chunks) ending)) and ends normally; streams with a leading BOM "
+                  "included. Ingredients, each proved for all inputs: line_step (scan_segment + the switch of read() = Whatwg.process_line), read_loop_spec (the read loop over the fields of a stream's lines "
+                  "= Whatwg.interp, incl. end rules and early stop), interp_lines_eq, the characterisation of splitFunc's tokens (split_func_tok/_shape), segmentation independence at the split level "
+                  "(split_path_toks + spec_toks), scan_spec and scan_spec2 (bufio.Scanner.Scan for every reader script: which token it cuts - splitFunc on a prefix of at most max(cap, maxTokenSize) bytes - and "
+                  "exactly when it reports ErrTooLong), split_loop_quiet / sf_tok_end (splitFunc against the group structure the limit is written with), and parser_fields (Parser.Next over the scanner's "
+                  "tokens hands out the fields of lines that interpret to Whatwg.interp, incl. the BOM wrapper of parser.New; fitsb excludes ErrTooLong). "
+                  "Not proved: split_stable in its sharp form (made unnecessary by spec_toks). The model is tied to the code by the correspondence (model = code on every case); the oracle holds_parse_c01 "
+                  "checks the theorem's statement on the real code (code = Whatwg.interp of the concatenated stream for every segmentation whenever every group fits the limit).",
     "level_note": PARSER_NOTE,
     "rule": PARSE_RULE,
     "assumptions": ["Read offers no retry callback: its yields are compared with the specification's after removing the retry notifications (Whatwg.interp emits them in every mode)",
@@ -40,9 +42,11 @@ PROPS["C20"] = {
     "families": ["parse_c20"],
     "level_text": "Proof + correspondence. Proved in full on the whole model stack for every reader script, every (cap(buf), maxSize) incl. 0/negative/absent, both entry points, every early stop "
                   "(read_run_bounded): no Panic outcome (ErrAdvanceTooFar, bufio's empty-token panic) and no OutOfFuel, bytes pulled = bytes consumed by tokens + bytes buffered and bytes buffered <= "
-                  "L = max(maxSize, cap(buf)) (default 65536) at every point and at the end. Partial (C20_tokens_complete_partial): every token handed out while input remains ends with a blank line and "
-                  "ErrTooLong hands out no token; the statement 'fitsb L s -> delivered completely and intact, else the specification's yields up to the oversized group followed by TooLong' is not "
-                  "proved on the model (same missing composition lemma as C01, plus fitsb -> no ErrTooLong) and is checked on the real code by the oracle holds_parse_c20.",
+                  "L = max(maxSize, cap(buf)) (default 65536) at every point and at the end. Also proved in full, without any size hypothesis (C20_intact = read_run_gen): the yields are either the whole "
+                  "interpretation Whatwg.interp of the concatenated stream (and then every group fits in the generous reading, may_complete), or - for an offset in the oracle's own toolong_points L (stream_needs s) - the specification's yields for the stream up to that offset "
+                  "followed by ErrTooLong; never a truncated or partial event, nothing lost before the oversized group. fitsb L s -> no ErrTooLong (C20_fits_complete, C20_fits_no_toolong_points, "
+                  "C20_fits_parser_err). The one-byte slack between strict and generous fit (the blank line that completed the previous group is CR LF and the LF arrives in a later read) is part of the "
+                  "statement (toolong_points uses need_lo / need_hi) and is real behaviour of the code. The oracle holds_parse_c20 checks the same statement on the real code.",
     "level_note": PARSER_NOTE,
     "rule": PARSE_RULE,
     "assumptions": ["the limit is max(maxSize, cap(buf)) as bufio.Scanner.Buffer documents; a group's size counts the blank lines before it and the first byte of the blank line after it; the rest of the stream after the last group must be shorter than the limit (the scanner needs room to be told that the input ended)",
